@@ -410,12 +410,20 @@ class DefinedMessage(Message):
     @avps.setter
     def avps(self, new_avps: list[Avp]):
         """Overwrites the list of custom AVPs."""
-        self._additional_avps = new_avps
+        if self._avps:
+            # parsed with `plain_msg=True`: the received AVPs have not been
+            # converted to attributes, the list is the message
+            self._avps = new_avps
+        else:
+            self._additional_avps = new_avps
         self._reset_find_cache()
 
     def append_avp(self, avp: Avp):
         """Add an individual custom AVP."""
-        self._additional_avps.append(avp)
+        if self._avps:
+            self._avps.append(avp)
+        else:
+            self._additional_avps.append(avp)
         self._reset_find_cache()
 
 
